@@ -10,6 +10,18 @@ CHECKS = {
    text="spec/Window.tla gives the ring buffer twice (implementation-shaped PeriodType arithmetic; abstract 'last N pushes'); TLC proves every observer, iterator split, from_parts and serde round trip equal on ALL capacities 0..254 and every rotation phase (finite, complete for the default PeriodType). The model is bound to the code both ways: TLC prints the observer table of every state for capacities 0..9,253,254 and the harness compares all observers of real Window<u32|String|(u8,u64)|f64> objects with it; random programs (incl. adversarial from_parts/deserialize arguments) on the real type are recorded and validated event by event against the abstract machine by TLC.",
    design_ref="DESIGN.md 5/C01",
    note="Trusts TLC, the Json/IOUtils community modules and the harness adapters; labels stand for arbitrary element values (the container is parametric). Capacities beyond 254 (wider PeriodType features) are covered under C20."),
+ "C04": dict(
+   technique="TLA+ model checking over ordered tokens (TLC, all streams of any length over the alphabet) + bidirectional conformance (TLC-enumerated streams replayed under 9 float embeddings; recorded random streams validated by a TLA+ trace spec)",
+   category="model_checking",
+   text="spec/Selection.tla transcribes the cached-extremum/rescan logic, the index ageing and SMM's two binary searches + slice shift next to the definitions (max, min, newest arg-extremum, middle order statistics) over tokens <<rank, +-0 bit>>; TLC checks impl = definition in EVERY reachable state (the graph is finite without a depth bound, so every stream of every length over 5 ranks and -0.0 is covered for lengths 1..4 quick / 1..6 thorough), plus slice sortedness/permutation/in-bounds. Binding: TLC enumerates all streams of length n+3 over the alphabet and the harness replays them on the real methods under nine order-preserving float embeddings (exact comparison, sign of zero ignored); random streams for all lengths 1..254 (ties, plateaus, monotone runs, +-0) are recorded from the real code and validated by Trace_Tok against the definitions.",
+   design_ref="DESIGN.md 5/C04",
+   note="Token abstraction is sound because these algorithms only compare values and test bit-equality; NaN/inf inputs are rejected by the methods and not generated. The internal Window is read abstractly (C01)."),
+ "C14": dict(
+   technique="TLA+ model checking (TLC; crossing detectors complete, reversal detectors with a scaled-down PeriodType explored past counter saturation) + bidirectional conformance (enumerated streams replayed; recorded long streams validated by a TLA+ trace spec)",
+   category="model_checking",
+   text="spec/Cross.tla and Reversal.tla give the detectors as coded (last-delta sign; window + saturating/rebased PeriodType position counters) and definitionally (sign change rule; pivot of the surrounding left+right+1 elements with the documented tie rule). TLC checks impl = definition on every pair of streams (cross, incl. touches, repeated zeros, -0.0, antisymmetry) and, for the reversal detectors, on every stream of ANY length with PMAX scaled to 7 (quick) and 15 (thorough), i.e. far beyond saturation of the position counter. Binding: all streams up to depth 8/11 replayed on the real detectors under nine embeddings; recorded streams of 700-3000 inputs (all (left,right) classes incl. 1/252) validated against the definition by TLC.",
+   design_ref="DESIGN.md 5/C14",
+   note="Reversal programs start with the construction value as first input (Method::new's contract). The scaled-down PMAX model is tied to the real u8 counters by the long recorded streams."),
 }
 
 NOT_YET = {
